@@ -16,40 +16,40 @@ import (
 )
 
 const (
-	sysRead           = 0
-	sysWrite          = 1
-	sysOpen           = 2
-	sysClose          = 3
-	sysStat           = 4
-	sysLstat          = 6
-	sysPwrite64       = 18
-	sysFsync          = 74
-	sysFdatasync      = 75
-	sysFtruncate      = 77
-	sysRename         = 82
-	sysMkdir          = 83
-	sysLink           = 86
-	sysUnlink         = 87
-	sysFchmod         = 91
-	sysOpenat         = 257
-	sysMkdirat        = 258
-	sysNewfstatat     = 262
-	sysUnlinkat       = 263
-	sysRenameat       = 264
-	sysLinkat         = 265
-	sysFchmodat       = 268
-	sysRenameat2      = 316
-	sysCopyFileRange  = 326
-	sysStatx          = 332
-	sysIoUringSetup   = 425
-	sysOpenat2        = 437
-	sysSendfile       = 40
-	sysPwritev        = 296
-	sysWritev         = 20
-	sysSymlink        = 88
-	sysSymlinkat      = 266
-	sysFallocate      = 285
-	sysMmap           = 9
+	sysRead          = 0
+	sysWrite         = 1
+	sysOpen          = 2
+	sysClose         = 3
+	sysStat          = 4
+	sysLstat         = 6
+	sysPwrite64      = 18
+	sysFsync         = 74
+	sysFdatasync     = 75
+	sysFtruncate     = 77
+	sysRename        = 82
+	sysMkdir         = 83
+	sysLink          = 86
+	sysUnlink        = 87
+	sysFchmod        = 91
+	sysOpenat        = 257
+	sysMkdirat       = 258
+	sysNewfstatat    = 262
+	sysUnlinkat      = 263
+	sysRenameat      = 264
+	sysLinkat        = 265
+	sysFchmodat      = 268
+	sysRenameat2     = 316
+	sysCopyFileRange = 326
+	sysStatx         = 332
+	sysIoUringSetup  = 425
+	sysOpenat2       = 437
+	sysSendfile      = 40
+	sysPwritev       = 296
+	sysWritev        = 20
+	sysSymlink       = 88
+	sysSymlinkat     = 266
+	sysFallocate     = 285
+	sysMmap          = 9
 )
 
 var names = map[uint64]string{
